@@ -210,11 +210,16 @@ pub fn run(t: &[&str]) -> String {
                 Err(P::Err(e)) => return e,
             };
             let flat = ix.flatten();
+            let dm = DecodedMap::Index(ix.clone());
             let mut out = vec![];
             for q in list_of(t[2], ',') {
                 let mut f = q.split(':').map(num);
                 let (l, c) = (f.next().unwrap_or(0), f.next().unwrap_or(0));
                 let i = show_hit(ix.lookup_token(l, c));
+                // `DecodedMap::lookup_token` is the same lookup
+                if show_hit(dm.lookup_token(l, c)) != i {
+                    return "err dispatch-differs".into();
+                }
                 let fl = match &flat {
                     Ok(sm) => show_hit(sm.lookup_token(l, c)),
                     Err(_) => "!".into(),
